@@ -109,6 +109,9 @@ def run(s):
         storysend_variants(s, ro_txt, state, rng, pool)
     K.fuzz(s, 60 if s.tier == 'quick' else 6000, K.kind_weights(1, 1, 1.0), steps=(5, 20), text='hostile',
            shape_weights=(0.95, 0.02, 0.03, 0.0))
+    # carried stories / items whose ID tag is blank: they arrive all the same
+    K.fuzz(s, 60 if s.tier == 'quick' else 3000, K.kind_weights(1, 1, 0.2), steps=(4, 12), text='plain',
+           shape_weights=(0.95, 0.02, 0.03, 0.0), blank_carried=0.5)
 
 
 replay = K.replay_transition
